@@ -3218,6 +3218,8 @@ class BSP:
         prop_lump = BytesIO()
         prop_lump.write(struct.pack('<i', len(model_list)))
         for name in model_list:
+            if len(name) > 128:
+                raise ValueError(f'Static prop model "{name}" exceeds 128 character limit')
             prop_lump.write(struct.pack('<128s', name.encode('ascii', 'surrogateescape')))
 
         prop_lump.write(struct.pack('<i', len(leaf_array)))
